@@ -20,7 +20,8 @@ CFG = dict(
                  "5": "dishonest success: a call reported a success whose body no delivered envelope with its id carried",
                  "6": "hang: an operation is still pending at a quiescent point after the connection was closed",
                  "7": "a call started after the connection was closed did not fail at once",
-                 "8": "panic in a client API call"},
+                 "8": "panic in a client API call",
+                 "10": "the call's reply / final envelope / pending messages had been delivered before the read failure, yet the call got the connection error"},
     rule="lock-step in synctest bubbles, real client vs scripted peer, two outstanding calls (kind pairs unary+stream, stream+stream, "
          "unary+unary; streams with Header and RecvMsg waiting), alphabet = the 18 envelope shapes of clientgen.go x {call 0, call 1, "
          "unknown id} = 54 symbols. QUICK (9692 lock-step cases): ALL sequences of length 1 (54 x 3 kind pairs x stats on/off = 324) and ALL of "
